@@ -18,6 +18,43 @@ from . import geomtab as T
 PART = "pdom"
 
 
+def _invert_leg(seed):
+    """is_pt_in_extended_polytope with invert_extension=True is VOGeometry!ExtPoly reflected through the origin: the polytope extended
+    towards minus infinity contains p iff the reflected polytope extended towards plus infinity contains -p; for the vertex set of a box
+    both have closed forms (p >= lo, resp. p <= hi)."""
+    import itertools
+    import random
+    import numpy as np
+    from vopy.utils import is_pt_in_extended_polytope
+    rnd = random.Random(seed)
+    bad, n = [], 0
+    for _ in range(400):
+        d = rnd.choice([2, 2, 3])
+        lo = np.array([rnd.randint(-2, 2) for _ in range(d)], dtype=float)
+        hi = lo + np.array([rnd.choice([0, 1, 2]) for _ in range(d)], dtype=float)
+        box = np.array(list(itertools.product(*zip(lo, hi))))
+        if rnd.random() < 0.5 and d == 2:      # a sheared image, as check_dominates produces for non-orthant cones
+            A = np.array(rnd.choice([[[2, -1], [-1, 2]], [[2, 1], [1, 2]], [[3, -1], [-1, 2]]]), dtype=float)
+            poly = box @ A.T
+            sheared = True
+        else:
+            poly, sheared = box, False
+        pt = np.array([rnd.randint(-6, 8) / 2.0 for _ in range(d)])
+        n += 1
+        try:
+            inv = bool(is_pt_in_extended_polytope(pt, poly, invert_extension=True))
+            ref = bool(is_pt_in_extended_polytope(-pt, -poly, invert_extension=False))
+            up = bool(is_pt_in_extended_polytope(pt, poly))
+        except Exception as e:
+            bad.append({"kind": "extpoly-exception", "pt": pt.tolist(), "polytope": poly.tolist(), "error": repr(e)[:200]})
+            continue
+        if inv != ref:
+            bad.append({"kind": "extpoly-invert", "pt": pt.tolist(), "polytope": poly.tolist(), "inverted": inv, "reflected": ref})
+        elif not sheared and (up != bool(np.all(pt >= lo)) or inv != bool(np.all(pt <= hi))):
+            bad.append({"kind": "extpoly-box", "pt": pt.tolist(), "lo": lo.tolist(), "hi": hi.tolist(), "up": up, "inverted": inv})
+    return n, bad
+
+
 def run(ctx):
     import vopy.confidence_region  # noqa: F401
     thorough = ctx.tier == "thorough"
@@ -33,6 +70,10 @@ def run(ctx):
     c3 += c3d
     bad3 += bad3d
     T.report(ctx, bad + bad3, "C11")
+    ni, badi = _invert_leg(ctx.seed)
+    for b in badi:
+        ctx.violation("%s|dim=%d" % (b["kind"], len(b["pt"])), b, "is_pt_in_extended_polytope: %s" % str(b)[:400])
+    ctx.evaluations += ni
     AC.run_traces(ctx, "pess", "C11")
     ctx.traces += len(rows) + len(rows3)
     ctx.evaluations += calls + c3
@@ -55,6 +96,8 @@ def replay(body):
     case = body["case"]
     if "cfg" in case:
         return AC.replay_case(body, "C11")
+    if case.get("kind", "").startswith("extpoly"):
+        return not _invert_leg(0)[1]
     row = dict(case["row"], allscales=True)
     if case["kind"].startswith("rect3"):
         _, bad = T.replay_rows3((PART, [row], 0))
